@@ -74,6 +74,11 @@ def _ent_triggers(orig: dict, cs: bool) -> list[str]:
                 trig.add('unescaped')
             if 'v' in it and _floatable(it['v']) and (it['v'] != it['v'].strip() or '+' in it['v']):
                 trig.add('choice_bare')     # written without quotes although the token cannot carry it
+    if not cs:
+        texts = [orig['desc']] + [t for kv in orig['kvs'] for t in (kv['disp'], kv['def'], kv['desc'])] \
+            + [it['n'] for kv in orig['kvs'] for it in kv['list']] + [io_['desc'] for io_ in orig['ins'] + orig['outs']]
+        if any('\\' in t for t in texts):
+            trig.add('plain_backslash')     # the original syntax has no escape for a backslash
     if any(r['type'] in ('SOUNDSCRIPT', 'PARTICLE_FILE') for r in orig['res']):
         trig.add('resource_keyword')
     return sorted(trig)
@@ -301,7 +306,7 @@ def run(tier: str, seed: int) -> int:
         return []
 
     # quick: a seed-rotated part of the larger families; thorough: every case
-    part = {'res': 1, 'num': 1, 'io': 2, 'header': 3, 'kv': 5}
+    part = {'res': 1, 'num': 1, 'lists': 1, 'io': 2, 'header': 3, 'kv': 5}
 
     def doc_cases(sl: str):
         def fn(cov):
@@ -320,8 +325,8 @@ def run(tier: str, seed: int) -> int:
             cf_.write_text(json.dumps(cases))
             out = work.path(f'cases_{sl}.ndjson')
             st = json.loads(core.run_driver('c16_driver.py', ['doccases', cf_, out], env=env).strip().splitlines()[-1])
-            if st['cases'] != len(cases):
-                raise MachineryError(f'{cfg}: driver ran {st["cases"]} of {len(cases)} cases')
+            if st['cases'] + st['unbuildable'] != len(cases) or st['cases'] * 2 < len(cases) or (st['unbuildable'] and sl != 'lists'):
+                raise MachineryError(f'{cfg}: driver ran {st["cases"]} (+{st["unbuildable"]} not constructible) of {len(cases)} cases')
             cov['cases_replayed'] = st['cases']
             cov['traces'] += st['cases']
             mism = validate_doc(out, work, cov)
@@ -382,7 +387,7 @@ def run(tier: str, seed: int) -> int:
             jobs += [timed('db_edges_' + n, db_edges(n)) for n in ('Cyc', 'Chain', 'Two')]
             jobs.append(timed('db_singles', db_singles))
         if 'doc' in stages:
-            jobs += [timed('doc_cases_' + sl, doc_cases(sl)) for sl in ('header', 'io', 'num', 'res')]
+            jobs += [timed('doc_cases_' + sl, doc_cases(sl)) for sl in ('header', 'io', 'lists', 'num', 'res')]
             jobs.append(timed('doc_cases_bin', bin_cases))
             jobs.append(timed('doc_text_mc', text_mc))
         if 'beyond' in stages:
